@@ -69,7 +69,7 @@ def run(ctx):
         if ucls is None:
             raise AnalysisBroken("UnboundedSPSCQueue not found")
         byname = {m.base: m for m in facts.fns if m.config == cfg and m.cls == c02.CLS and not m.rec.get("ctor") and not m.rec.get("dtor")}
-        c02.check_r4(Renamed(ctx, "C02.R4", "C09.R4"), byname)
+        c02.check_r4(Renamed(ctx, "C02.R4", "C09.R4"), byname, strict=True)
         # unbounded commit_read / finish_read delegate to the consumer node's bounded queue
         for mname in ("commit_read", "finish_read"):
             m = byname.get(mname)
